@@ -38,7 +38,7 @@ def run_job(j):
     by_id = {id(x): n for n, x in enumerate(ifaces)}
 
     def num(x):
-        return 1000 if x is Interface else by_id.get(id(x), 1001)
+        return 9 if x is Interface else by_id.get(id(x), 10)
 
     def lists_of(x, is_inst):
         spec = providedBy(x) if is_inst else x
